@@ -4,7 +4,7 @@
    the real library; after every step the description of what each live client emits must equal
    what the recording origin captured. *)
 From Coq Require Import List Arith Bool.
-From ReqV Require Export Model.Settings Model.ReExec Model.LiveSel Gen.CloneTable.
+From ReqV Require Export Model.Settings Model.ReExec Model.LiveSel Model.Handshake Gen.CloneTable.
 Import ListNotations.
 
 Record c19_step := Step {
@@ -24,7 +24,8 @@ Inductive rx_step :=
 Inductive c19_case :=
 | CProg (l : list c19_step)
 | CReexec (l : list rx_step)
-| CLive (l : list lstep).         (* settings changed after use, live TLS origin: protocol selection *)
+| CLive (l : list lstep)
+| CHandshake (l : list hsstep).   (* TLS handshake option: setter order x Clone *)         (* settings changed after use, live TLS origin: protocol selection *)
 
 Fixpoint leqb (a b : list nat) : bool :=
   match a, b with
@@ -85,4 +86,5 @@ Definition c19_check (c : c19_case) : bool :=
   | CProg l => c19_run init_state [] l
   | CReexec l => rx_run rq0 l
   | CLive l => live_run gen_guard [] l
+  | CHandshake l => hs_run gen_hs [] l
   end.
